@@ -510,7 +510,7 @@ Definition issue_line (x : xsys) (id : N) (l : bytes) : xsys * seg :=
   else (x, add_res seg0 id (b "closed")).
 
 Definition run_op (x1 : xsys) (g : seg) : xsys * option seg :=
-  let '(x2, g2) := settle 4000 x1 g in (x2, Some g2).
+  let '(x2, g2) := settle (fuel_for x1) x1 g in (x2, Some g2).
 
 Definition sem (x : xsys) (gl : glabel) : xsys * option seg :=
   match gl with
@@ -545,15 +545,15 @@ Definition sem3 (x : xsys) (lab : bytes) (gl : glabel) : option bytes * xsys * o
     match chunk with
     | [] => (None, x, None)
     | _ => let x1 := set_net x (x_srv x) (x_c2s x) (skipn k (x_s2c x)) in
-           let '(x2, g2) := settle 4000 (set_conn x1 (x_buf x1) (x_bst x1) (x_inbox x1 ++ chunk)) seg0 in
+           let '(x2, g2) := settle (fuel_for x1) (set_conn x1 (x_buf x1) (x_bst x1) (x_inbox x1 ++ chunk)) seg0 in
            (Some (b "d:" ++ hex chunk), x2, Some g2)
     end
   | GTick ms =>
-    let '(x2, g2) := settle 4000 (set_pt x (x_pt x) (match x_pt x with PWindow => x_elapsed x + ms | _ => x_elapsed x end)) seg0 in
+    let '(x2, g2) := settle (fuel_for x) (set_pt x (x_pt x) (match x_pt x with PWindow => x_elapsed x + ms | _ => x_elapsed x end)) seg0 in
     (Some lab, x2, Some g2)
   | GIssue id l =>
     let '(x1, g1) := issue_line x id l in
-    let '(x2, g2) := settle 4000 x1 g1 in (Some lab, x2, Some g2)
+    let '(x2, g2) := settle (fuel_for x1) x1 g1 in (Some lab, x2, Some g2)
   end.
 
 Ltac known_kind E kind :=
@@ -605,7 +605,7 @@ Lemma sem3_sem x lab gl :
   match snd (sem3 x lab gl), fst (fst (sem3 x lab gl)) with Some _, None => False | _, _ => True end.
 Proof.
   destruct gl as [id l|n|all|k|ms]; unfold sem3, sem, run_op.
-  - destruct (issue_line x id l) as [x1 g1]. destruct (settle 4000 x1 g1). repeat split.
+  - destruct (issue_line x id l) as [x1 g1]. destruct (settle _ x1 g1). repeat split.
   - destruct (snotify _ _). repeat split.
   - repeat split.
   - cbv zeta. match goal with |- context [match ?c with [] => _ | _ :: _ => _ end] => destruct c end.
@@ -812,9 +812,9 @@ Lemma run_op_after x1 s1 s pre : Rel x1 s1 -> Inv s1 -> s1 = fold_left astep pre
   label_post s (fst (run_op x1 seg0)) (snd (run_op x1 seg0)) (issued_in pre).
 Proof.
   intros HR HI ES WP ER ED.
-  assert (NB : (nu s1 < 4000)%nat) by (pose proof (nu_bound s1 HI); lia).
-  destruct (settle_sim 4000 x1 seg0 s1 HR HI NB) as [sch [nr [ne [CS [HR' [HI' [GE [ER' ED']]]]]]]].
-  unfold run_op. destruct (settle 4000 x1 seg0) as [x2 g2]. cbn [fst snd] in *.
+  assert (NB : (nu s1 < fuel_for x1)%nat) by (pose proof (nu_bound s1 HI); unfold fuel_for; lia).
+  destruct (settle_sim (fuel_for x1) x1 seg0 s1 HR HI NB) as [sch [nr [ne [CS [HR' [HI' [GE [ER' ED']]]]]]]].
+  unfold run_op. destruct (settle (fuel_for x1) x1 seg0) as [x2 g2]. cbn [fst snd] in *.
   exists (pre ++ sch), nr, ne. rewrite <- fold_left_app_step, <- ES.
   split. { apply Forall_app. split; [exact WP|]. eapply Forall_impl; [|exact CS]. apply client_label_wf. }
   split. { rewrite issued_in_app, (issued_in_client sch CS). apply app_nil_r. }
